@@ -189,6 +189,27 @@ pub fn run_c11(cfg: &Cfg) -> i32 {
         }
         rep.count_n("irrd_queries_served", server.log().len() as u64);
         server.stop();
+        // "the bgpfu command prints exactly that set": also when the evaluation has something to
+        // complain about on the way (a route query the IRR refuses is logged and skipped) - what
+        // is on standard output must be prefix ranges and nothing else
+        if have_bin {
+            if let Some((asn, _)) = database.ases.iter().find(|(_, r)| !r.v6.is_empty() || !r.v4.is_empty()) {
+                let mut faults = Faults::default();
+                faults.by_query.insert(format!("!gAS{asn}"), Fault::Other("route query refused".into()));
+                if let Ok(srv) = Server::start(database.clone(), faults) {
+                    let text = format!("AS{asn}");
+                    let out = run_binary(srv.port(), &text);
+                    srv.stop();
+                    rep.case(Some(format!("stdout|{didx}|{text}").as_bytes()));
+                    rep.count("binary_runs_with_a_refused_route_query");
+                    if let Real::Ranges(lines) = &out {
+                        if let Err(h) = to_ranges(lines) {
+                            rep.violation("bgpfu-output:standard-output-is-not-only-the-set", &h, json!({"expression": text, "stdout": lines.iter().take(12).map(|l| clip(l, 200)).collect::<Vec<_>>(), "db_seed_case": didx, "seed": cfg.seed}));
+                        }
+                    }
+                }
+            }
+        }
     }
     rep.finish()
 }
@@ -384,6 +405,8 @@ pub fn run_c17(cfg: &Cfg) -> i32 {
         let (tx, rx) = mpsc::channel::<Real>();
         let (go_tx, go_rx) = mpsc::channel::<()>();
         let t2 = texts.clone();
+        let via_trait = idx % 2 == 1;
+        rep.count(if via_trait { "sequences_through_the_Evaluator_trait" } else { "sequences_through_the_inherent_method" });
         std::thread::spawn(move || {
             let mut ev = match bgpfu::RpslEvaluator::new("127.0.0.1", port) {
                 Ok(e) => e,
@@ -399,7 +422,9 @@ pub fn run_c17(cfg: &Cfg) -> i32 {
                 let parsed: Result<rpsl::expr::MpFilterExpr, _> = t.parse();
                 let r = match parsed {
                     Err(e) => Real::Err(format!("parse: {e}")),
-                    Ok(p) => match std::panic::catch_unwind(std::panic::AssertUnwindSafe(|| ev.evaluate(p))) {
+                    // both public entry points: the evaluator's own method, and the rpsl crate's
+                    // `Evaluator` trait that generic callers go through
+                    Ok(p) => match std::panic::catch_unwind(std::panic::AssertUnwindSafe(|| if via_trait { rpsl::expr::eval::Evaluator::evaluate(&mut ev, p).map_err(bgpfu::Error::from) } else { ev.evaluate(p) })) {
                         Ok(Ok(set)) => Real::Ranges(set.ranges().map(|r| r.to_string()).collect()),
                         Ok(Err(e)) => Real::Err(format!("{e:?}")),
                         Err(p) => Real::Panic(crate::sess::panic_message(p)),
